@@ -64,6 +64,17 @@ def park_profile_config(ch) -> SimConfig:
     return c
 
 
+def lockstep_config(ch) -> SimConfig:
+    """2-3 workers advancing 1-8 lines at a time: adjacent lines of two tasks alternate (races on scratch buffers that are
+    written by one statement and read by the next, with no store statement in between); affordable for small graphs only"""
+    c = SimConfig(trace_root=TRACE_ROOT)
+    c.reorder = ch.bool(0.85, "reorder")
+    c.workers = ch.range(2, 3, "workers")
+    c.qlo, c.qhi = 1, ch.pick([2, 4, 8], "lockstep-qhi")
+    c.release = not ch.bool(0.3, "keep-all")
+    return c
+
+
 def park_config(ch, candidates: int) -> SimConfig:
     """delay one task at one of the `candidates` shared-store boundaries found by a profiling schedule"""
     c = park_profile_config(ch)
